@@ -266,7 +266,9 @@ Eval(e, env, d) ==
       [] op \in {"LIKE", "NOT_LIKE"} ->
             LET x == Eval(e[2], env, d)
                 p == Eval(e[3], env, d)
-                esc == IF Len(e) >= 4 THEN Eval(e[4], env, d) ELSE S(<<>>)
+                \* without an ESCAPE clause a backslash escapes on PostgreSQL and MySQL (documented default)
+                esc == IF Len(e) >= 4 THEN Eval(e[4], env, d)
+                       ELSE IF d \in {"PostgreSQL", "MySQL"} THEN S(<<"\\">>) ELSE S(<<>>)
             IN IF IsErr(x) \/ IsErr(p) \/ IsErr(esc) THEN Err
                ELSE IF IsNull(x) \/ IsNull(p) \/ IsNull(esc) THEN Null
                ELSE IF x.t # "str" \/ p.t # "str" \/ esc.t # "str" \/ Len(esc.v) > 1 THEN Err
